@@ -4,6 +4,9 @@ import (
 	"fmt"
 	seccomp "github.com/elastic/go-seccomp-bpf"
 	ucfgyaml "github.com/elastic/go-ucfg/yaml"
+	"os"
+	"os/exec"
+	"path/filepath"
 	"strings"
 	"sync/atomic"
 	"time"
@@ -17,6 +20,27 @@ func init() { register("C11", checkC11) }
 type c11Config struct {
 	Unpriv bool      `json:"unprivileged"`
 	Script nnpScript `json:"script"`
+	Cgo    bool      `json:"cgo_linked_child,omitempty"` // the child is the cgo-linked build of the harness
+}
+
+var cgoLinked bool
+
+// c11CgoBin builds the harness once more, linked with cgo, next to the public copy of this binary.
+func c11CgoBin() (string, error) {
+	out := filepath.Join(filepath.Dir(publicSelf()), "vcheck-cgo")
+	args := []string{"build"}
+	if mf := os.Getenv("VERIF_MODFILE"); mf != "" {
+		args = append(args, "-modfile="+mf)
+	}
+	args = append(args, "-tags", "verif cgolink", "-o", out, "./cmd/vcheck")
+	bc := exec.Command("go", args...)
+	bc.Dir = filepath.Join(evid.Root(), "harness")
+	bc.Env = append(os.Environ(), "CGO_ENABLED=1")
+	if b, err := bc.CombinedOutput(); err != nil {
+		return "", fmt.Errorf("%v %.300s", err, b)
+	}
+	os.Chmod(out, 0o755)
+	return out, nil
 }
 
 // c11Histories: sequences of loads on different threads of one process (the no_new_privs bit is per thread, so the
@@ -143,25 +167,25 @@ func checkC11(tier, replay string) int {
 				for _, nnp := range []bool{true, false} {
 					for _, fl := range []uint32{0, 1, 2, 3, 4, 5} { // 4 = SPEC_ALLOW: a flag the kernel accepts and the library has no name for
 						for _, lm := range []bool{false, true} {
-							cfgs = append(cfgs, c11Config{unpriv, nnpScript{NNP: nnp, Flags: fl, Choice: "stay", LoaderMain: lm}})
+							cfgs = append(cfgs, c11Config{Unpriv: unpriv, Script: nnpScript{NNP: nnp, Flags: fl, Choice: "stay", LoaderMain: lm}})
 							if !lm {
 								// the bit is per thread: the thread-group leader already has it, the loader's thread does not. What
 								// /proc/self/status or any other process-wide view says is the leader's bit, not the loader's
-								cfgs = append(cfgs, c11Config{unpriv, nnpScript{NNP: nnp, Flags: fl, Choice: "stay", PreNNP: "leader"}})
+								cfgs = append(cfgs, c11Config{Unpriv: unpriv, Script: nnpScript{NNP: nnp, Flags: fl, Choice: "stay", PreNNP: "leader"}})
 							}
 							if !unpriv {
 								// prctl(2) itself is denied with EPERM by an outer filter: a requested bit cannot be set, so
 								// nothing may be installed without it
-								cfgs = append(cfgs, c11Config{unpriv, nnpScript{NNP: nnp, Flags: fl, Choice: "stay", LoaderMain: lm, DenyPrctl: true}})
+								cfgs = append(cfgs, c11Config{Unpriv: unpriv, Script: nnpScript{NNP: nnp, Flags: fl, Choice: "stay", LoaderMain: lm, DenyPrctl: true}})
 							}
 							if nnp && fl < 2 && straceWorks() {
 								// second schedule point: the thread is held inside prctl(2) by a tracer while the runtime hands its P to
 								// a busy goroutine; an unpinned loader resumes on another thread
-								cfgs = append(cfgs, c11Config{unpriv, nnpScript{NNP: nnp, Flags: fl, Choice: "prctl-delay", LoaderMain: lm}})
+								cfgs = append(cfgs, c11Config{Unpriv: unpriv, Script: nnpScript{NNP: nnp, Flags: fl, Choice: "prctl-delay", LoaderMain: lm}})
 							}
 							for _, idle := range []int{0, 6} {
 								for _, wire := range []int{0, 12} {
-									cfgs = append(cfgs, c11Config{unpriv, nnpScript{NNP: nnp, Flags: fl, Choice: "move", IdleMs: idle, WireIdle: wire, LoaderMain: lm}})
+									cfgs = append(cfgs, c11Config{Unpriv: unpriv, Script: nnpScript{NNP: nnp, Flags: fl, Choice: "move", IdleMs: idle, WireIdle: wire, LoaderMain: lm}})
 								}
 							}
 						}
@@ -170,7 +194,26 @@ func checkC11(tier, replay string) int {
 			}
 		}
 	}
-	var preNNP int64
+	var preNNP, cgoChildren int64
+	cgoBin := ""
+	if replay == "" || cfgs[0].Cgo {
+		// build configuration: the same states in a cgo-linked process, where the runtime refuses process-wide system calls
+		// and starts threads through the C library
+		if b, err := c11CgoBin(); err != nil {
+			ctx.Capped("a cgo-linked build of the harness is not possible here: " + err.Error())
+		} else {
+			cgoBin = b
+			defer os.Remove(b)
+			if replay == "" {
+				for _, c := range append([]c11Config{}, cfgs...) {
+					sc := c.Script
+					if sc.Flags < 2 && !sc.DenyPrctl && (sc.Choice != "move" || sc.IdleMs == 0 && sc.WireIdle == 0) {
+						cfgs = append(cfgs, c11Config{Unpriv: c.Unpriv, Script: sc, Cgo: true})
+					}
+				}
+			}
+		}
+	}
 	var children, moved, impossible, movedOld, movedNew, controlOK, delayCtl, delayMoved, delayStayed int64
 	parallelFor(len(cfgs), func(i int) {
 		c := cfgs[i]
@@ -182,6 +225,12 @@ func checkC11(tier, replay string) int {
 		if c.Script.Choice == "prctl-delay" {
 			env = append(env, "VERIF_PRCTL_DELAY=1")
 		}
+		if c.Cgo {
+			if cgoBin == "" {
+				return
+			}
+			env = append(env, "VERIF_CHILD_BIN="+cgoBin)
+		}
 		sig, exit, se, err := runChildJSON(60*time.Second, c.Unpriv, env, "nnp", c.Script, &rep)
 		atomic.AddInt64(&children, 1)
 		if err != nil || sig != 0 || exit != 0 {
@@ -191,6 +240,14 @@ func checkC11(tier, replay string) int {
 			return
 		}
 		cls := fmt.Sprintf("%s:nnp=%v:%s", map[bool]string{true: "unpriv", false: "priv"}[c.Unpriv], c.Script.NNP, c.Script.Choice)
+		if c.Cgo {
+			cls += ":cgo"
+			if !rep.CgoLinked {
+				ctx.Capped("a child that should be cgo-linked is not")
+				return
+			}
+			atomic.AddInt64(&cgoChildren, 1)
+		}
 		if c.Script.PreNNP != "" {
 			cls += ":pre-nnp-" + c.Script.PreNNP
 			if !rep.PreNNPDone {
@@ -282,6 +339,7 @@ func checkC11(tier, replay string) int {
 	ctx.Cov["traces_validated_against_impl"] = children
 	ctx.Cov["schedules_with_goroutine_moved_between_prctl_and_seccomp"] = moved
 	ctx.Cov["loads_with_no_new_privs_already_set_on_the_thread_group_leader_only"] = preNNP
+	ctx.Cov["configurations_run_in_a_cgo_linked_child"] = cgoChildren
 	ctx.Cov["moved_to_preexisting_thread"] = movedOld
 	ctx.Cov["moved_to_thread_born_during_load"] = movedNew
 	ctx.Cov["schedules_where_migration_is_impossible_because_loader_is_wired_to_its_thread"] = impossible
@@ -329,7 +387,7 @@ func checkC11(tier, replay string) int {
 		}
 	}
 	ctx.Cov["filters_read_through_the_configuration_loader"] = cfgForms
-	ctx.Cov["rule"] = "states = {privileged, uid 65534} x NoNewPrivs x flags {0,tsync,log,tsync|log,4 (SPEC_ALLOW),5} x loader on main / other goroutine (also with no_new_privs already set on the thread-group leader only, the loader being another thread) x thread placement at the single seam between prctl(2) and seccomp(2): stay, or forced migration (a helper goroutine takes over and wires itself to the loader's thread so that the runtime must resume the loader on another thread; with and without a pool of idle threads / with all idle threads wired), or - for NoNewPrivs loads with flags 0 and tsync, when strace is available - a second schedule point at the prctl itself (a tracer holds every prctl(2) in the kernel for 60 ms while the process has one P and a goroutine that never blocks, so that an unpinned goroutine resumes on another thread when the call returns); the manoeuvre is first shown to work on an unpinned control goroutine in the same process; each configuration runs the real LoadFilter in a fresh child; observed: result, tid and no_new_privs bit at the seam, per-thread NoNewPrivs/Seccomp before and after; plus every history of two (thorough: three) loads over two threads x {A,B} x NoNewPrivs x tsync in one process, privileged and unprivileged, judged step by step on /proc (the bit is per thread: a second load on another thread must set it again); plus a Filter written with the documented keys (no_new_privs x 4 flag words, YAML and JSON text) read through the ucfg loader: the fields LoadFilter looks at must hold what the text says"
+	ctx.Cov["rule"] = "states = {privileged, uid 65534} x NoNewPrivs x flags {0,tsync,log,tsync|log,4 (SPEC_ALLOW),5} x {pure Go child, cgo-linked child (flags 0 and tsync)} x loader on main / other goroutine (also with no_new_privs already set on the thread-group leader only, the loader being another thread) x thread placement at the single seam between prctl(2) and seccomp(2): stay, or forced migration (a helper goroutine takes over and wires itself to the loader's thread so that the runtime must resume the loader on another thread; with and without a pool of idle threads / with all idle threads wired), or - for NoNewPrivs loads with flags 0 and tsync, when strace is available - a second schedule point at the prctl itself (a tracer holds every prctl(2) in the kernel for 60 ms while the process has one P and a goroutine that never blocks, so that an unpinned goroutine resumes on another thread when the call returns); the manoeuvre is first shown to work on an unpinned control goroutine in the same process; each configuration runs the real LoadFilter in a fresh child; observed: result, tid and no_new_privs bit at the seam, per-thread NoNewPrivs/Seccomp before and after; plus every history of two (thorough: three) loads over two threads x {A,B} x NoNewPrivs x tsync in one process, privileged and unprivileged, judged step by step on /proc (the bit is per thread: a second load on another thread must set it again); plus a Filter written with the documented keys (no_new_privs x 4 flag words, YAML and JSON text) read through the ucfg loader: the fields LoadFilter looks at must hold what the text says"
 	ctx.Assumptions = []string{"the only scheduling fact that matters between prctl and seccomp is which OS thread executes seccomp(2); instruction-level preemption inside the runtime is not enumerated", "if the loader is wired to its thread, migration is impossible and the property holds by construction (counted separately)"}
 	if replay != "" {
 		return finishReplay(ctx)
